@@ -332,25 +332,77 @@ type mirrorStage struct {
 	sites       map[string]*ssa.Call
 }
 
+// mSite is one backend / replicator call of a stage: the invoke itself, the
+// function it sits in (the goroutine closure, or a same-package helper the
+// closure passes the receiver field to), the call inside the closure that
+// stands for it, and a resolver from values of that function to values of the
+// enclosing method (helper parameters are mapped to the closure's arguments).
+type mSite struct {
+	fld       string
+	invoke    *ssa.Call
+	scope     *ssa.Function
+	surrogate *ssa.Call
+	resolve   func(v ssa.Value) ssa.Value
+}
+
+func mirrorSites(g *ssa.Function, method string) []mSite {
+	var out []mSite
+	allInstrs(g, func(ins ssa.Instruction) {
+		cl, ok := ins.(*ssa.Call)
+		if !ok {
+			return
+		}
+		if cl.Call.IsInvoke() {
+			if cl.Call.Method.Name() == method {
+				if fld := recvFieldLoadName(g, cl.Call.Value); fld != "" {
+					out = append(out, mSite{fld, cl, g, cl, func(v ssa.Value) ssa.Value { return captureOrigin(g, v) }})
+				}
+			}
+			return
+		}
+		callee := cl.Call.StaticCallee()
+		if callee == nil || callee.Pkg == nil || callee.Pkg != topFunc(g).Pkg || len(callee.Blocks) == 0 {
+			return
+		}
+		for k, a := range cl.Call.Args {
+			fld := recvFieldLoadName(g, a)
+			if fld == "" || k >= len(callee.Params) {
+				continue
+			}
+			kk := k
+			allInstrs(callee, func(i2 ssa.Instruction) {
+				c2, ok := i2.(*ssa.Call)
+				if !ok || !c2.Call.IsInvoke() || c2.Call.Method.Name() != method || stripConv(c2.Call.Value) != ssa.Value(callee.Params[kk]) {
+					return
+				}
+				out = append(out, mSite{fld, c2, callee, cl, func(v ssa.Value) ssa.Value {
+					v = stripConv(v)
+					for j, p := range callee.Params {
+						if v == ssa.Value(p) && j < len(cl.Call.Args) {
+							return captureOrigin(g, cl.Call.Args[j])
+						}
+					}
+					return v
+				}})
+			})
+		}
+	})
+	return out
+}
+
 func scanMirrorStage(c *Ctx, home *ssa.Function, method string) *mirrorStage {
 	st := &mirrorStage{home: home, cellBackend: map[*ssa.Alloc]string{}, replArg: map[string]ssa.Value{}, relabel: map[string]bool{}, wrapped: map[string]bool{}, sites: map[string]*ssa.Call{}}
 	gos := goClosures(home)
 	var group ssa.Value
 	for g, grp := range gos {
-		allInstrs(g, func(ins ssa.Instruction) {
-			cl, ok := ins.(*ssa.Call)
-			if !ok || !cl.Call.IsInvoke() || cl.Call.Method.Name() != method {
-				return
-			}
-			fld := recvFieldLoadName(g, cl.Call.Value)
-			if fld == "" {
-				return
-			}
+		for _, site := range mirrorSites(g, method) {
+			fld := site.fld
 			group = grp
-			st.sites[fld] = cl
+			st.sites[fld] = site.surrogate
 			switch method {
 			case "FindMissing":
-				for _, r := range *cl.Referrers() {
+				// the answer (result 0 of the invoke, or of the helper that returns it) is stored into a captured cell
+				for _, r := range *site.surrogate.Referrers() {
 					ex, ok := r.(*ssa.Extract)
 					if !ok || ex.Index != 0 {
 						continue
@@ -373,22 +425,30 @@ func scanMirrorStage(c *Ctx, home *ssa.Function, method string) *mirrorStage {
 						}
 					}
 				}
-				for _, r := range returnsOf(g) {
-					if w, ok := r.Results[0].(*ssa.Call); ok && isPkgFuncCall(w.Common(), modPath+"/pkg/util", "StatusWrap") {
-						st.wrapped[fld] = true
+				for _, sc := range []*ssa.Function{g, site.scope} {
+					for _, r := range returnsOf(sc) {
+						ei := errIndex(sc)
+						if ei < 0 {
+							continue
+						}
+						if w, ok := r.Results[ei].(*ssa.Call); ok && isPkgFuncCall(w.Common(), modPath+"/pkg/util", "StatusWrap") {
+							st.wrapped[fld] = true
+						}
 					}
 				}
 			case "ReplicateMultiple":
-				st.replArg[fld] = captureOrigin(g, cl.Call.Args[1])
-				allInstrs(g, func(i2 ssa.Instruction) {
-					if w, ok := i2.(*ssa.Call); ok && isPkgFuncCall(w.Common(), modPath+"/pkg/util", "StatusWrapWithCode") {
-						if k, ok := constInt(stripConv(w.Call.Args[1])); ok && k == 13 {
-							st.relabel[fld] = true
+				st.replArg[fld] = site.resolve(site.invoke.Call.Args[1])
+				for _, sc := range []*ssa.Function{g, site.scope} {
+					allInstrs(sc, func(i2 ssa.Instruction) {
+						if w, ok := i2.(*ssa.Call); ok && isPkgFuncCall(w.Common(), modPath+"/pkg/util", "StatusWrapWithCode") {
+							if k, ok := constInt(stripConv(w.Call.Args[1])); ok && k == 13 {
+								st.relabel[fld] = true
+							}
 						}
-					}
-				})
+					})
+				}
 			}
-		})
+		}
 	}
 	if group == nil {
 		return nil
